@@ -92,6 +92,10 @@ func runC17(c *core.Ctx) {
 	c.Rule("R17.3", "check and act are one critical section: no map write happens under a lock acquired after the lookup that decided the command (two connections adding the same missing key must not both succeed)", 10)
 	c.Rule("R17.4", "one mutex per map: wherever a handler is built around a map that other handlers share, it is built around the mutex they share too", 1)
 
+	c.Rule("R17.5", "expiry follows the reference map (memcached): now + TTL only for TTLs of at most 30 days, above that the TTL is an absolute time (shared with C09)", 1)
+	runR99(c, "R17.5")
+	runR176(c)
+
 	const rel = "handlers/inmem"
 	impl, ok := handlerImpl(c, rel)
 	if !ok {
